@@ -477,8 +477,9 @@ impl AsmParser {
                     (-range..range).contains(&val)
                 }
                 Bits::Unsigned(num_bits) => {
-                    let range = 2_u16.pow(num_bits as u32 - 1);
-                    (0..range).contains(&val)
+                    // All `num_bits` bits are available. Use wider type, as 2^16 does not fit
+                    let range = 2_u32.pow(num_bits as u32);
+                    (0..range).contains(&(val as u32))
                 }
             }
         };
